@@ -19,7 +19,46 @@
    THE TABLES.  The model has duplicate-free lists; the table the C works on (the socket's own tables, or the shadow
    tables during a reload) is threaded through the interpretation as a pair [tabs]; [live] says whether it is the
    socket's own pair - then every change is written through to the world (pfx w / keys w) and reported to the update
-   callback (TPfx / TKey trace items), as process_eod does.                                                        *)
+   callback (TPfx / TKey trace items), as process_eod does.
+
+   RESULTS (every world w, every table pair T, live or shadow, every table handle h; p = the PDU as received, byte-valued,
+   of the right type and size: is_v4 / is_v6 / is_key):
+     pfx_record_tie   exists r, rtr_prefix_pdu_2_pfx_record_gen (stored p) (zeros 40) this_socket (Some 0) (Some 0) (type) = Some r
+                      /\ length r = 40 /\ rec_prec r = prec_of_pdu p        (IPv4 and IPv6)
+     key_record_tie   the same for rtr_key_pdu_2_spki_record_gen, rec_krec r = krec_of_pdu p
+     update_pfx_tie   interpS live (rtr_update_pfx_table_gen h (stored p) (Some 0) this_socket (sock_store (sk w))) T w
+                      = Some (as_effS (update_pfx_one live p T) w)
+     update_spki_tie  ... rtr_update_spki_table_gen ... = Some (as_effS (update_key_one live p T) w)
+     undo_pfx_tie / undo_spki_tie   ... rtr_undo_update_*_table_gen ... = Some (as_effS (undo_*_one live p T) w)
+     update_pfx_one_model / update_key_one_model   update_*_one = pfx_op / key_op (= the model's upd_pfx / upd_key, written
+                      through to the world with callbacks when live) followed by the model's report_update_failure with the
+                      model's codes (1 duplicate, 2 unknown withdrawal, 3 invalid flags) and result -1
+     undo_*_one_model for an applied PDU (flags 0 or 1) the undo is the table operation with flag 1 - flags: what undo_pfx /
+                      undo_keys perform
+     pfx_op_never_error / key_op_never_error   the interpreted table calls return 0, -2 or -3, never PFX_ERROR / SPKI_ERROR -1:
+                      the "PFX_TABLE Error" / "spki_table Error" (Internal Error) branch of the C has NO counterpart in the model
+                      (no allocation failure there) and is unreachable under the interpretation.
+   [Some] = the C is defined: every load inside the PDU, every store inside the record, the asserts hold.
+
+   CODE versus MODEL - what was compared and found EQUAL (no finding):
+     - min_len <- prefix_len (byte 9), max_len <- max_prefix_len (byte 10), for both families;
+     - the address: the C copies host-order 32-bit words (the receive path swapped each word), bits32 of those words is
+       bits_of_bytes of the bytes as received;
+     - flags: ((struct pdu_ipv4 * )pdu)->flags is read for IPv6 PDUs too - offsetof(pdu_ipv4, flags) = offsetof(pdu_ipv6,
+       flags) = 8 = the model's nthb p 8; Router Key: byte 2 (the header conversion leaves bytes 2, 3 of a Router Key alone);
+     - the echoed PDU: sizeof(struct pdu_ipv4 / pdu_ipv6 / pdu_router_key) = 20 / 32 / 123 = the whole PDU, converted back:
+       unstore (stored p) = p, the model's send_error_from_host p;
+     - invalid flags: report only, no state change, in both; duplicate / unknown: report + RTR_ERROR_FATAL, in both.
+   Differences that change no reachable behaviour:
+     - PFX_ERROR / SPKI_ERROR branch: see above;
+     - undo with flags outside {0, 1}: the C returns RTR_ERROR without a table call, the model's upd_pfx (1 - flags) gives
+       its code 3 - "failed" either way, and only PDUs that were applied (flags 0 / 1) are ever undone;
+     - the record's padding and, for IPv4, the last three address words stay 0 here (C: indeterminate); rec_prec does not
+       read them.
+   NOT PROVED here: that the loops of rtr_sync_receive_and_store_pdus over the three temporary arrays are apply_pfx /
+   apply_keys / undo_pfx / undo_keys (folds of the one-PDU operations; the model emits the callbacks of a whole array
+   before it stores the table, which commutes).                                                                     *)
+
 From Coq Require Import ZifyBool.
 From RtrV Require Import Base.CSem Base.Mem Base.MemW Base.Eff Base.EffMem Base.Bits32 Gen.Generated Gen.GeneratedMem
   Gen.GeneratedStore Rtr.RtrModel Rtr.ExpiryTac Rtr.ExpiryProofs Rtr.CheckSizeTie Rtr.FooterTie Rtr.FsmTie.
@@ -167,3 +206,586 @@ Proof.
     repeat match goal with |- context [firstn ?n (skipn ?k ?l)] => evl (firstn n (skipn k l)) end.
     unfold get32, nthb. cbn [nth Nat.add]. rewrite be32_le. reflexivity.
 Qed.
+
+(* ====================================================================================================== *)
+(* 3. interpretation of the effect trees                                                                    *)
+(* ====================================================================================================== *)
+Notation tabs := (list prec * list krec)%type.
+
+(* the table pair the C operates on; the socket's own pair is written through to the world *)
+Definition tab_sync (live : bool) (T : tabs) : world -> res unit :=
+  if live then set_tables (fst T) (snd T) else ret tt.
+(* the model's result codes of upd_pfx / upd_key as enum pfx_rtvals / spki_rtvals: 0 ok -> SUCCESS 0, 1 -> DUPLICATE_RECORD -2,
+   2 -> RECORD_NOT_FOUND -3; anything else -> ERROR -1 *)
+Definition tab_code (c : Z) : Z := if c =? 0 then 0 else if c =? 1 then -2 else if c =? 2 then -3 else -1.
+
+(* pfx_table_add (flags 1) / pfx_table_remove (flags 0) of record r: the model's upd_pfx on the set, the update
+   callback (trace) when the table is the socket's own *)
+Definition pfx_op (live : bool) (flags : Z) (r : prec) (T : tabs) : world -> res (Z * tabs) :=
+  let '(X', c, t) := upd_pfx live flags r (fst T) in
+  mdo _ <- tab_sync live (X', snd T); mdo _ <- emit_all t; ret (tab_code c, (X', snd T)).
+Definition key_op (live : bool) (flags : Z) (r : krec) (T : tabs) : world -> res (Z * tabs) :=
+  let '(K', c, t) := upd_key live flags r (snd T) in
+  mdo _ <- tab_sync live (fst T, K'); mdo _ <- emit_all t; ret (tab_code c, (fst T, K')).
+
+(* the record handed to a table function: [handle; number of bytes; bytes...] *)
+Definition arg_rec (args : list Z) : list Z := firstn (Z.to_nat (nth 1 args 0)) (skipn 2 args).
+
+(* rtr_send_error_pdu_from_host(socket, pdu, len, code, txt, txt_len) - layout as in FsmTie2.decode_err_args; the PDU
+   is a STORED one, the C sends  unstore (first len bytes)  *)
+Definition decode_err_stored (args : list Z) : list byte * Z * list byte :=
+  let n := Z.to_nat (nth 0 args 0) in
+  let obj := firstn n (skipn 1 args) in
+  let r := skipn (S n) args in
+  let len := nth 0 r 0 in
+  let code := nth 1 r 0 in
+  let tn := Z.to_nat (nth 2 r 0) in
+  let txt := firstn tn (skipn 3 r) in
+  let tlen := nth tn (skipn 3 r) 0 in
+  (unstore (firstn (Z.to_nat len) obj), code, firstn (Z.to_nat tlen) txt).
+
+Definition ext_store (live : bool) (f : string) (args : list Z) (T : tabs) : option (world -> res (list Z * tabs)) :=
+  if String.eqb f "pfx_table_add" then Some (mdo x <- pfx_op live 1 (rec_prec (arg_rec args)) T; ret ([fst x], snd x))
+  else if String.eqb f "pfx_table_remove" then Some (mdo x <- pfx_op live 0 (rec_prec (arg_rec args)) T; ret ([fst x], snd x))
+  else if String.eqb f "spki_table_add_entry" then Some (mdo x <- key_op live 1 (rec_krec (arg_rec args)) T; ret ([fst x], snd x))
+  else if String.eqb f "spki_table_remove_entry" then Some (mdo x <- key_op live 0 (rec_krec (arg_rec args)) T; ret ([fst x], snd x))
+  else if String.eqb f "rtr_send_error_pdu_from_host" then
+    let '(enc, code, txt) := decode_err_stored args in
+    Some (mdo r <- send_error_from_host enc code txt; ret ([r], T))
+  else if String.eqb f "rtr_change_socket_state" then Some (mdo _ <- change_state (nth 0 args 0); ret ([], T))
+  else None.
+
+Fixpoint interpS (live : bool) (e : eff) (T : tabs) (w : world) {struct e} : option (res (Z * store * tabs)) :=
+  match e with
+  | ERet r s => Some (Ok (r, s, T) (with_sk w (store_sock s)))
+  | EUndef => None
+  | ECall f args s k =>
+    match ext_store live f args T with
+    | None => None
+    | Some m =>
+      match m (with_sk w (store_sock s)) with
+      | Ok (rs, T') w' => interpS live (k rs (sock_store (sk w'))) T' w'
+      | Exc x w' => Some (Exc x w')
+      end
+    end
+  end.
+
+(* a model computation as the translated function reports it: value, socket fields at the end, tables at the end *)
+Definition as_effS (m : world -> res (Z * tabs)) (w : world) : res (Z * store * tabs) :=
+  match m w with Ok (r, T) w' => Ok (r, sock_store (sk w'), T) w' | Exc x w' => Exc x w' end.
+
+Lemma arg_rec_sbuf h r : arg_rec ([h] ++ sbuf r (Some 0))%list = r.
+Proof.
+  change ([h] ++ sbuf r (Some 0))%list with (h :: Z.of_nat (List.length r) :: r).
+  unfold arg_rec. cbn [nth skipn]. rewrite Nat2Z.id. apply firstn_all.
+Qed.
+
+Lemma decode_err_stored_buf (B : list Z) len code (T : list Z) tlen :
+  decode_err_stored ((Z.of_nat (List.length B) :: B) ++ [len; code] ++ (Z.of_nat (List.length T) :: T) ++ [tlen])%list =
+  (unstore (firstn (Z.to_nat len) B), code, firstn (Z.to_nat tlen) T).
+Proof.
+  unfold decode_err_stored. cbn [app nth skipn]. rewrite Nat2Z.id.
+  rewrite firstn_app, firstn_all, Nat.sub_diag. cbn [firstn]. rewrite app_nil_r.
+  rewrite skipn_app, skipn_all, Nat.sub_diag. cbn [skipn app nth]. rewrite Nat2Z.id.
+  rewrite firstn_app, firstn_all, Nat.sub_diag. cbn [firstn]. rewrite app_nil_r.
+  rewrite app_nth2 by lia. rewrite Nat.sub_diag. reflexivity.
+Qed.
+Lemma decode_pdu_notext M len code tlen :
+  decode_err_stored (sbuf M (Some 0) ++ [len] ++ [code] ++ [0] ++ [tlen])%list = (unstore (firstn (Z.to_nat len) M), code, []).
+Proof. pose proof (decode_err_stored_buf M len code [] tlen) as H. rewrite firstn_nil in H. exact H. Qed.
+Lemma decode_pdu_text M len code T tlen :
+  decode_err_stored (sbuf M (Some 0) ++ [len] ++ [code] ++ sbuf T (Some 0) ++ [tlen])%list =
+  (unstore (firstn (Z.to_nat len) M), code, firstn (Z.to_nat tlen) T).
+Proof. exact (decode_err_stored_buf M len code T tlen). Qed.
+
+Section Calls.
+Variable live : bool.
+Variables (s : store) (k : list Z -> store -> eff) (T : tabs) (w : world).
+Let w0 := with_sk w (store_sock s).
+Let K (c : Z) (x : Z * tabs) (w' : world) := interpS live (k [c] (sock_store (sk w'))) (snd x) w'.
+
+Lemma iS_pfx_add h r : interpS live (ECall "pfx_table_add" ([h] ++ sbuf r (Some 0))%list s k) T w =
+  xbind (pfx_op live 1 (rec_prec r) T) (fun x => K (fst x) x) w0.
+Proof.
+  cbn [interpS].
+  change (ext_store live "pfx_table_add" ([h] ++ sbuf r (Some 0))%list T) with
+    (Some (mdo x <- pfx_op live 1 (rec_prec (arg_rec ([h] ++ sbuf r (Some 0))%list)) T; ret ([fst x], snd x))).
+  rewrite arg_rec_sbuf. unfold xbind, bind, ret, K. fold w0. destruct (pfx_op live 1 (rec_prec r) T w0) as [[c T'] w'|x w']; reflexivity.
+Qed.
+Lemma iS_pfx_remove h r : interpS live (ECall "pfx_table_remove" ([h] ++ sbuf r (Some 0))%list s k) T w =
+  xbind (pfx_op live 0 (rec_prec r) T) (fun x => K (fst x) x) w0.
+Proof.
+  cbn [interpS].
+  change (ext_store live "pfx_table_remove" ([h] ++ sbuf r (Some 0))%list T) with
+    (Some (mdo x <- pfx_op live 0 (rec_prec (arg_rec ([h] ++ sbuf r (Some 0))%list)) T; ret ([fst x], snd x))).
+  rewrite arg_rec_sbuf. unfold xbind, bind, ret, K. fold w0. destruct (pfx_op live 0 (rec_prec r) T w0) as [[c T'] w'|x w']; reflexivity.
+Qed.
+Lemma iS_key_add h r : interpS live (ECall "spki_table_add_entry" ([h] ++ sbuf r (Some 0))%list s k) T w =
+  xbind (key_op live 1 (rec_krec r) T) (fun x => K (fst x) x) w0.
+Proof.
+  cbn [interpS].
+  change (ext_store live "spki_table_add_entry" ([h] ++ sbuf r (Some 0))%list T) with
+    (Some (mdo x <- key_op live 1 (rec_krec (arg_rec ([h] ++ sbuf r (Some 0))%list)) T; ret ([fst x], snd x))).
+  rewrite arg_rec_sbuf. unfold xbind, bind, ret, K. fold w0. destruct (key_op live 1 (rec_krec r) T w0) as [[c T'] w'|x w']; reflexivity.
+Qed.
+Lemma iS_key_remove h r : interpS live (ECall "spki_table_remove_entry" ([h] ++ sbuf r (Some 0))%list s k) T w =
+  xbind (key_op live 0 (rec_krec r) T) (fun x => K (fst x) x) w0.
+Proof.
+  cbn [interpS].
+  change (ext_store live "spki_table_remove_entry" ([h] ++ sbuf r (Some 0))%list T) with
+    (Some (mdo x <- key_op live 0 (rec_krec (arg_rec ([h] ++ sbuf r (Some 0))%list)) T; ret ([fst x], snd x))).
+  rewrite arg_rec_sbuf. unfold xbind, bind, ret, K. fold w0. destruct (key_op live 0 (rec_krec r) T w0) as [[c T'] w'|x w']; reflexivity.
+Qed.
+End Calls.
+
+Lemma iS_ret live z T w : interpS live (ERet z (sock_store (sk w))) T w = Some (Ok (z, sock_store (sk w), T) w).
+Proof. cbn [interpS]. rewrite with_sk_store. reflexivity. Qed.
+
+(* error report, then RTR_ERROR_FATAL, then return z *)
+Lemma report_fatal_tie live args p code txt z T w : decode_err_stored args = (p, code, txt) ->
+  interpS live (ECall "rtr_send_error_pdu_from_host" args (sock_store (sk w)) (fun _ s =>
+                ECall "rtr_change_socket_state" [7] s (fun _ s => ERet z s))) T w =
+  Some (as_effS (mdo _ <- send_error_from_host p code txt; mdo _ <- change_state c_RTR_ERROR_FATAL; ret (z, T)) w).
+Proof.
+  intros Hd. cbn [interpS].
+  change (ext_store live "rtr_send_error_pdu_from_host" args T) with
+    (let '(enc, code, txt) := decode_err_stored args in Some (mdo r <- send_error_from_host enc code txt; ret ([r], T))).
+  rewrite Hd. cbv beta iota. rewrite with_sk_store. unfold as_effS, bind at 1 2. unfold bind at 1.
+  destruct (send_error_from_host p code txt w) as [r1 w1|x w1]; [|reflexivity].
+  cbv beta iota. unfold ret at 1. cbv beta iota.
+  change (ext_store live "rtr_change_socket_state" [7] T) with (Some (mdo _ <- change_state 7; ret (@nil Z, T))).
+  cbv beta iota. rewrite with_sk_store. unfold bind. change c_RTR_ERROR_FATAL with 7.
+  destruct (change_state 7 w1) as [u w2|x w2]; [|reflexivity].
+  unfold ret. cbn [interpS]. rewrite with_sk_store. reflexivity.
+Qed.
+(* error report, then return z (the invalid-flags branch does not change the state) *)
+Lemma report_only_tie live args p code txt z T w : decode_err_stored args = (p, code, txt) ->
+  interpS live (ECall "rtr_send_error_pdu_from_host" args (sock_store (sk w)) (fun _ s => ERet z s)) T w =
+  Some (as_effS (mdo _ <- send_error_from_host p code txt; ret (z, T)) w).
+Proof.
+  intros Hd. cbn [interpS].
+  change (ext_store live "rtr_send_error_pdu_from_host" args T) with
+    (let '(enc, code, txt) := decode_err_stored args in Some (mdo r <- send_error_from_host enc code txt; ret ([r], T))).
+  rewrite Hd. cbv beta iota. rewrite with_sk_store. unfold as_effS, bind.
+  destruct (send_error_from_host p code txt w) as [r1 w1|x w1]; [|reflexivity].
+  unfold ret. rewrite with_sk_store. reflexivity.
+Qed.
+
+(* ====================================================================================================== *)
+(* 4. what the translated table operations read from the stored PDU                                         *)
+(* ====================================================================================================== *)
+Definition pdu_size (p : list byte) : Z :=
+  if nthb p 1 =? c_IPV4_PREFIX then sizeof_pdu_ipv4 else if nthb p 1 =? c_IPV6_PREFIX then sizeof_pdu_ipv6 else sizeof_pdu_router_key.
+
+Ltac facts_tac :=
+  unfold stored; layout; unfold pdu_size, nthb; cbn [nth]; ev_closed;
+  repeat match goal with |- _ /\ _ => split end;
+  [ rewrite get_type_small;
+    [reflexivity | unfold zlen; cbn [List.length]; lia
+     | match goal with |- context [mbyte ?m ?j] => evl (mbyte m j) end; lia]
+  | apply ld_ok_in; cbn [List.length]; lia
+  | rewrite ldu1; reflexivity
+  | match goal with |- context [firstn ?n ?l] => evl (firstn n l) end;
+    unfold unstore, zlen; cbn [List.length]; ev_closed; layout; reflexivity ].
+
+Lemma stored_facts_v4 p : Forall byte_ok p -> is_v4 p ->
+  rtr_get_pdu_type_gen (stored p) (Some 0) = Some (nthb p 1) /\
+  ld_ok (stored p) (Some 8) 1 = true /\ ldu (stored p) (Some 8) 1 = nthb p 8 /\
+  unstore (firstn (Z.to_nat (pdu_size p)) (stored p)) = p.
+Proof.
+  intros Hb [Hty Hl]. unfold sizeof_pdu_ipv4 in Hl. explode p Hl. unfold nthb in Hty. cbn [nth] in Hty. subst. bytes Hb.
+  facts_tac.
+Qed.
+Lemma stored_facts_v6 p : Forall byte_ok p -> is_v6 p ->
+  rtr_get_pdu_type_gen (stored p) (Some 0) = Some (nthb p 1) /\
+  ld_ok (stored p) (Some 8) 1 = true /\ ldu (stored p) (Some 8) 1 = nthb p 8 /\
+  unstore (firstn (Z.to_nat (pdu_size p)) (stored p)) = p.
+Proof.
+  intros Hb [Hty Hl]. unfold sizeof_pdu_ipv6 in Hl. explode p Hl. unfold nthb in Hty. cbn [nth] in Hty. subst. bytes Hb.
+  facts_tac.
+Qed.
+Lemma stored_facts_key p : Forall byte_ok p -> is_key p ->
+  rtr_get_pdu_type_gen (stored p) (Some 0) = Some (nthb p 1) /\
+  ld_ok (stored p) (Some 2) 1 = true /\ ldu (stored p) (Some 2) 1 = nthb p 2 /\
+  unstore (firstn (Z.to_nat (pdu_size p)) (stored p)) = p.
+Proof.
+  intros Hb [Hty Hl]. unfold sizeof_pdu_router_key in Hl. explode p Hl. unfold nthb in Hty. cbn [nth] in Hty. subst. bytes Hb.
+  facts_tac.
+Qed.
+
+(* ====================================================================================================== *)
+(* 5. the model's operations for ONE stored PDU                                                             *)
+(* ====================================================================================================== *)
+(* after the table call of rtr_update_*_table: success, or the report of report_update_failure and RTR_ERROR *)
+Definition after_op (is_key : bool) (p : list byte) (x : Z * tabs) : world -> res (Z * tabs) :=
+  if fst x =? 0 then ret (0, snd x)
+  else if fst x =? -2 then
+    mdo _ <- send_error_from_host p c_DUPLICATE_ANNOUNCEMENT []; mdo _ <- change_state c_RTR_ERROR_FATAL; ret (-1, snd x)
+  else mdo _ <- send_error_from_host p c_WITHDRAWAL_OF_UNKNOWN_RECORD []; mdo _ <- change_state c_RTR_ERROR_FATAL; ret (-1, snd x).
+(* invalid flags: report, no state change, RTR_ERROR *)
+Definition bad_flags (is_key : bool) (p : list byte) (T : tabs) : world -> res (Z * tabs) :=
+  mdo _ <- send_error_from_host p c_CORRUPT_DATA (if is_key then txt_key_flags else txt_pfx_flags); ret (-1, T).
+
+Definition update_pfx_one (live : bool) (p : list byte) (T : tabs) : world -> res (Z * tabs) :=
+  let fl := pdu_flags p in
+  if fl =? 1 then mdo x <- pfx_op live 1 (prec_of_pdu p) T; after_op false p x
+  else if fl =? 0 then mdo x <- pfx_op live 0 (prec_of_pdu p) T; after_op false p x
+  else bad_flags false p T.
+Definition update_key_one (live : bool) (p : list byte) (T : tabs) : world -> res (Z * tabs) :=
+  let fl := pdu_flags p in
+  if fl =? 1 then mdo x <- key_op live 1 (krec_of_pdu p) T; after_op true p x
+  else if fl =? 0 then mdo x <- key_op live 0 (krec_of_pdu p) T; after_op true p x
+  else bad_flags true p T.
+(* the inverse operation *)
+Definition undo_pfx_one (live : bool) (p : list byte) (T : tabs) : world -> res (Z * tabs) :=
+  let fl := pdu_flags p in
+  if fl =? 1 then pfx_op live 0 (prec_of_pdu p) T
+  else if fl =? 0 then pfx_op live 1 (prec_of_pdu p) T
+  else ret (-1, T).
+Definition undo_key_one (live : bool) (p : list byte) (T : tabs) : world -> res (Z * tabs) :=
+  let fl := pdu_flags p in
+  if fl =? 1 then key_op live 0 (krec_of_pdu p) T
+  else if fl =? 0 then key_op live 1 (krec_of_pdu p) T
+  else ret (-1, T).
+
+(* ---------- the table calls never fail with PFX_ERROR / SPKI_ERROR under the interpretation ---------- *)
+Lemma pfx_op_eq live fl r T w : exists w',
+  pfx_op live fl r T w = Ok (tab_code (snd (fst (upd_pfx live fl r (fst T)))), (fst (fst (upd_pfx live fl r (fst T))), snd T)) w'.
+Proof. unfold pfx_op. destruct (upd_pfx live fl r (fst T)) as [[X' c] t]. destruct live; eexists; reflexivity. Qed.
+Lemma key_op_eq live fl r T w : exists w',
+  key_op live fl r T w = Ok (tab_code (snd (fst (upd_key live fl r (snd T)))), (fst T, fst (fst (upd_key live fl r (snd T))))) w'.
+Proof. unfold key_op. destruct (upd_key live fl r (snd T)) as [[X' c] t]. destruct live; eexists; reflexivity. Qed.
+Lemma upd_pfx_code live fl r X : fl = 1 \/ fl = 0 ->
+  tab_code (snd (fst (upd_pfx live fl r X))) = 0 \/ tab_code (snd (fst (upd_pfx live fl r X))) = -2 \/
+  tab_code (snd (fst (upd_pfx live fl r X))) = -3.
+Proof. intros [-> | ->]; unfold upd_pfx; cbn [Z.eqb Pos.eqb]; destruct (pmem r X); cbn; auto. Qed.
+Lemma upd_key_code live fl r X : fl = 1 \/ fl = 0 ->
+  tab_code (snd (fst (upd_key live fl r X))) = 0 \/ tab_code (snd (fst (upd_key live fl r X))) = -2 \/
+  tab_code (snd (fst (upd_key live fl r X))) = -3.
+Proof. intros [-> | ->]; unfold upd_key; cbn [Z.eqb Pos.eqb]; destruct (kmem r X); cbn; auto. Qed.
+
+Theorem pfx_op_never_error live fl r T w c T' w' : fl = 1 \/ fl = 0 ->
+  pfx_op live fl r T w = Ok (c, T') w' -> c = 0 \/ c = -2 \/ c = -3.
+Proof.
+  intros Hfl H. destruct (pfx_op_eq live fl r T w) as (w2 & E). rewrite E in H. inversion H. apply upd_pfx_code, Hfl.
+Qed.
+Theorem key_op_never_error live fl r T w c T' w' : fl = 1 \/ fl = 0 ->
+  key_op live fl r T w = Ok (c, T') w' -> c = 0 \/ c = -2 \/ c = -3.
+Proof.
+  intros Hfl H. destruct (key_op_eq live fl r T w) as (w2 & E). rewrite E in H. inversion H. apply upd_key_code, Hfl.
+Qed.
+
+(* ---------- plumbing ---------- *)
+Lemma as_effS_bind {A} (m : world -> res A) f w :
+  as_effS (bind m f) w = match m w with Ok a w' => as_effS (f a) w' | Exc x w' => Exc x w' end.
+Proof. unfold as_effS, bind. destruct (m w); reflexivity. Qed.
+Lemma xbind_S {A} (m : world -> res A) F f w :
+  (forall a w', m w = Ok a w' -> F a w' = Some (as_effS (f a) w')) -> xbind m F w = Some (as_effS (bind m f) w).
+Proof. intros H. unfold xbind. rewrite as_effS_bind. destruct (m w) as [a w'|x w'] eqn:E; [apply H; reflexivity|reflexivity]. Qed.
+Lemma as_effS_ext m1 m2 w : m1 w = m2 w -> as_effS m1 w = as_effS m2 w.
+Proof. unfold as_effS. intros ->. reflexivity. Qed.
+Lemma as_effS_ret z T w : as_effS (ret (z, T)) w = Ok (z, sock_store (sk w), T) w.
+Proof. reflexivity. Qed.
+
+(* the code after the table call of rtr_update_pfx_table / rtr_update_spki_table, for the three possible codes *)
+Ltac after_call F4 Hc :=
+  destruct Hc as [-> | [-> | ->]]; cbn [fst snd nth]; ev_closed;
+  [ rewrite iS_ret; reflexivity
+  | erewrite report_fatal_tie; [|rewrite decode_pdu_notext, F4; reflexivity]; reflexivity
+  | erewrite report_fatal_tie; [|rewrite decode_pdu_notext, F4; reflexivity]; reflexivity ].
+
+Theorem update_pfx_tie live h p T w : Forall byte_ok p -> is_prefix_pdu p ->
+  interpS live (rtr_update_pfx_table_gen h (stored p) (Some 0) this_socket (sock_store (sk w))) T w =
+  Some (as_effS (update_pfx_one live p T) w).
+Proof.
+  intros Hb Hp.
+  destruct (pfx_record_tie p Hb Hp) as (r & Hr & Hlen & Hdec).
+  assert (F : rtr_get_pdu_type_gen (stored p) (Some 0) = Some (nthb p 1) /\
+              ld_ok (stored p) (Some 8) 1 = true /\ ldu (stored p) (Some 8) 1 = nthb p 8 /\
+              unstore (firstn (Z.to_nat (pdu_size p)) (stored p)) = p)
+    by (destruct Hp; [apply stored_facts_v4|apply stored_facts_v6]; assumption).
+  destruct F as (F1 & F2 & F3 & F4). unfold pdu_size in F4.
+  pose proof (ExpiryFrames.nthb_ok p 8 Hb) as Hfl. unfold ExpiryFrames.byte_ok in Hfl.
+  assert (Hty : nthb p 1 = 4 \/ nthb p 1 = 6) by (destruct Hp as [[E _]|[E _]]; [left|right]; exact E).
+  unfold rtr_update_pfx_table_gen. rewrite F1. cbn [eopt]. cbv zeta.
+  unfold update_pfx_one, pdu_flags. cbv zeta.
+  destruct Hty as [E|E]; rewrite E in *; ev_closed; cbn [orb eguard]; rewrite Hr; cbn [eopt]; ev_closed;
+    rewrite F2, F3; cbn [eguard]; rewrite wraps32_small by lia;
+    match type of F4 with context [if ?c then ?a else ?b] =>
+      let v := eval vm_compute in (if c then a else b) in change (if c then a else b) with v in F4 end.
+  all: destruct (nthb p 8 =? 1) eqn:E1; cbv iota.
+  1,3: (rewrite iS_pfx_add, with_sk_store, Hdec; apply xbind_S; intros [c T'] w1 EO; cbv beta;
+            pose proof (pfx_op_never_error _ _ _ _ _ _ _ _ (or_introl eq_refl) EO) as Hc; after_call F4 Hc).
+  all: destruct (nthb p 8 =? 0) eqn:E0; cbv iota.
+  1,3: (rewrite iS_pfx_remove, with_sk_store, Hdec; apply xbind_S; intros [c T'] w1 EO; cbv beta;
+            pose proof (pfx_op_never_error _ _ _ _ _ _ _ _ (or_intror eq_refl) EO) as Hc; after_call F4 Hc).
+  all: erewrite report_only_tie; [|rewrite decode_pdu_text, F4; reflexivity]; reflexivity.
+Qed.
+
+Theorem update_spki_tie live h p T w : Forall byte_ok p -> is_key p ->
+  interpS live (rtr_update_spki_table_gen h (stored p) (Some 0) this_socket (sock_store (sk w))) T w =
+  Some (as_effS (update_key_one live p T) w).
+Proof.
+  intros Hb Hp.
+  destruct (key_record_tie p Hb Hp) as (r & Hr & Hlen & Hdec).
+  destruct (stored_facts_key p Hb Hp) as (F1 & F2 & F3 & F4). unfold pdu_size in F4.
+  pose proof (ExpiryFrames.nthb_ok p 2 Hb) as Hfl. unfold ExpiryFrames.byte_ok in Hfl.
+  destruct Hp as [E _]. change c_ROUTER_KEY with 9 in E.
+  unfold rtr_update_spki_table_gen. rewrite F1. cbn [eopt]. cbv zeta.
+  unfold update_key_one, pdu_flags. cbv zeta.
+  rewrite E in *; ev_closed; cbn [orb eguard]; rewrite Hr; cbn [eopt]; ev_closed;
+    rewrite F2, F3; cbn [eguard]; rewrite wraps32_small by lia;
+    match type of F4 with context [if ?c then ?a else ?b] =>
+      let v := eval vm_compute in (if c then a else b) in change (if c then a else b) with v in F4 end.
+  destruct (nthb p 2 =? 1) eqn:E1; cbv iota.
+  1: (rewrite iS_key_add, with_sk_store, Hdec; apply xbind_S; intros [c T'] w1 EO; cbv beta;
+      pose proof (key_op_never_error _ _ _ _ _ _ _ _ (or_introl eq_refl) EO) as Hc; after_call F4 Hc).
+  destruct (nthb p 2 =? 0) eqn:E0; cbv iota.
+  1: (rewrite iS_key_remove, with_sk_store, Hdec; apply xbind_S; intros [c T'] w1 EO; cbv beta;
+      pose proof (key_op_never_error _ _ _ _ _ _ _ _ (or_intror eq_refl) EO) as Hc; after_call F4 Hc).
+  erewrite report_only_tie; [|rewrite decode_pdu_text, F4; reflexivity]; reflexivity.
+Qed.
+
+(* ---------- undo ---------- *)
+Lemma xbind_S0 (m : world -> res (Z * tabs)) F w :
+  (forall a w', m w = Ok a w' -> F a w' = Some (Ok (fst a, sock_store (sk w'), snd a) w')) -> xbind m F w = Some (as_effS m w).
+Proof.
+  intros H. unfold xbind, as_effS. destruct (m w) as [[c T'] w'|x w'] eqn:E; [apply (H (c, T')); reflexivity|reflexivity].
+Qed.
+Ltac after_undo Hc := destruct Hc as [-> | [-> | ->]]; cbn [fst snd nth]; ev_closed; rewrite iS_ret; reflexivity.
+
+Theorem undo_pfx_tie live h p T w : Forall byte_ok p -> is_prefix_pdu p ->
+  interpS live (rtr_undo_update_pfx_table_gen h (stored p) (Some 0) this_socket (sock_store (sk w))) T w =
+  Some (as_effS (undo_pfx_one live p T) w).
+Proof.
+  intros Hb Hp.
+  destruct (pfx_record_tie p Hb Hp) as (r & Hr & Hlen & Hdec).
+  assert (F : rtr_get_pdu_type_gen (stored p) (Some 0) = Some (nthb p 1) /\
+              ld_ok (stored p) (Some 8) 1 = true /\ ldu (stored p) (Some 8) 1 = nthb p 8 /\
+              unstore (firstn (Z.to_nat (pdu_size p)) (stored p)) = p)
+    by (destruct Hp; [apply stored_facts_v4|apply stored_facts_v6]; assumption).
+  destruct F as (F1 & F2 & F3 & _).
+  pose proof (ExpiryFrames.nthb_ok p 8 Hb) as Hfl. unfold ExpiryFrames.byte_ok in Hfl.
+  assert (Hty : nthb p 1 = 4 \/ nthb p 1 = 6) by (destruct Hp as [[E _]|[E _]]; [left|right]; exact E).
+  unfold rtr_undo_update_pfx_table_gen. rewrite F1. cbn [eopt]. cbv zeta.
+  unfold undo_pfx_one, pdu_flags. cbv zeta.
+  destruct Hty as [E|E]; rewrite E in *; ev_closed; cbn [orb eguard]; rewrite Hr; cbn [eopt]; ev_closed;
+    rewrite F2, F3; cbn [eguard]; rewrite wraps32_small by lia.
+  all: destruct (nthb p 8 =? 1) eqn:E1; cbv iota.
+  1,3: (rewrite iS_pfx_remove, with_sk_store, Hdec; apply xbind_S0; intros [c T'] w1 EO; cbv beta;
+        pose proof (pfx_op_never_error _ _ _ _ _ _ _ _ (or_intror eq_refl) EO) as Hc; after_undo Hc).
+  all: destruct (nthb p 8 =? 0) eqn:E0; cbv iota.
+  1,3: (rewrite iS_pfx_add, with_sk_store, Hdec; apply xbind_S0; intros [c T'] w1 EO; cbv beta;
+        pose proof (pfx_op_never_error _ _ _ _ _ _ _ _ (or_introl eq_refl) EO) as Hc; after_undo Hc).
+  all: rewrite iS_ret; reflexivity.
+Qed.
+
+Theorem undo_spki_tie live h p T w : Forall byte_ok p -> is_key p ->
+  interpS live (rtr_undo_update_spki_table_gen h (stored p) (Some 0) this_socket (sock_store (sk w))) T w =
+  Some (as_effS (undo_key_one live p T) w).
+Proof.
+  intros Hb Hp.
+  destruct (key_record_tie p Hb Hp) as (r & Hr & Hlen & Hdec).
+  destruct (stored_facts_key p Hb Hp) as (F1 & F2 & F3 & _).
+  pose proof (ExpiryFrames.nthb_ok p 2 Hb) as Hfl. unfold ExpiryFrames.byte_ok in Hfl.
+  destruct Hp as [E _]. change c_ROUTER_KEY with 9 in E.
+  unfold rtr_undo_update_spki_table_gen. rewrite F1. cbn [eopt]. cbv zeta.
+  unfold undo_key_one, pdu_flags. cbv zeta.
+  rewrite E in *; ev_closed; cbn [orb eguard]; rewrite Hr; cbn [eopt]; ev_closed;
+    rewrite F2, F3; cbn [eguard]; rewrite wraps32_small by lia.
+  destruct (nthb p 2 =? 1) eqn:E1; cbv iota.
+  1: (rewrite iS_key_remove, with_sk_store, Hdec; apply xbind_S0; intros [c T'] w1 EO; cbv beta;
+      pose proof (key_op_never_error _ _ _ _ _ _ _ _ (or_intror eq_refl) EO) as Hc; after_undo Hc).
+  destruct (nthb p 2 =? 0) eqn:E0; cbv iota.
+  1: (rewrite iS_key_add, with_sk_store, Hdec; apply xbind_S0; intros [c T'] w1 EO; cbv beta;
+      pose proof (key_op_never_error _ _ _ _ _ _ _ _ (or_introl eq_refl) EO) as Hc; after_undo Hc).
+  rewrite iS_ret; reflexivity.
+Qed.
+
+(* ====================================================================================================== *)
+(* 6. the one-PDU operations above ARE the model's: upd_pfx / upd_key (inside pfx_op / key_op, by definition) and       *)
+(*    report_update_failure                                                                                 *)
+(* ====================================================================================================== *)
+Lemma after_op_report k p c T w : c = -2 \/ c = -3 ->
+  after_op k p (c, T) w = (mdo _ <- report_update_failure p (if c =? -2 then 1 else 2) k; ret (-1, T)) w.
+Proof.
+  intros [-> | ->]; unfold after_op, report_update_failure, bind; cbn [fst snd].
+  - change (-2 =? 0) with false. change (-2 =? -2) with true. cbv iota. change (1 =? 3) with false. change (1 =? 1) with true. cbv beta iota.
+    destruct (send_error_from_host p c_DUPLICATE_ANNOUNCEMENT [] w) as [a w1|x w1]; [|reflexivity].
+    destruct (change_state c_RTR_ERROR_FATAL w1); reflexivity.
+  - change (-3 =? 0) with false. change (-3 =? -2) with false. cbv iota. change (2 =? 3) with false. change (2 =? 1) with false. cbv beta iota.
+    destruct (send_error_from_host p c_WITHDRAWAL_OF_UNKNOWN_RECORD [] w) as [a w1|x w1]; [|reflexivity].
+    destruct (change_state c_RTR_ERROR_FATAL w1); reflexivity.
+Qed.
+Lemma bad_flags_report k p T w : bad_flags k p T w = (mdo _ <- report_update_failure p 3 k; ret (-1, T)) w.
+Proof.
+  unfold bad_flags, report_update_failure, bind. change (3 =? 3) with true. cbv beta iota.
+  destruct (send_error_from_host p c_CORRUPT_DATA (if k then txt_key_flags else txt_pfx_flags) w); reflexivity.
+Qed.
+
+(* result code of the model (1 duplicate, 2 unknown withdrawal) from the C's (-2, -3) *)
+Definition model_after (k : bool) (p : list byte) (x : Z * tabs) : world -> res (Z * tabs) :=
+  if fst x =? 0 then ret (0, snd x)
+  else mdo _ <- report_update_failure p (if fst x =? -2 then 1 else 2) k; ret (-1, snd x).
+Definition model_update_pfx (live : bool) (p : list byte) (T : tabs) : world -> res (Z * tabs) :=
+  let fl := pdu_flags p in
+  if fl =? 1 then mdo x <- pfx_op live 1 (prec_of_pdu p) T; model_after false p x
+  else if fl =? 0 then mdo x <- pfx_op live 0 (prec_of_pdu p) T; model_after false p x
+  else mdo _ <- report_update_failure p 3 false; ret (-1, T).
+Definition model_update_key (live : bool) (p : list byte) (T : tabs) : world -> res (Z * tabs) :=
+  let fl := pdu_flags p in
+  if fl =? 1 then mdo x <- key_op live 1 (krec_of_pdu p) T; model_after true p x
+  else if fl =? 0 then mdo x <- key_op live 0 (krec_of_pdu p) T; model_after true p x
+  else mdo _ <- report_update_failure p 3 true; ret (-1, T).
+
+Lemma bind_ext_ok {A B} (m : world -> res A) (f g : A -> world -> res B) w :
+  (forall a w', m w = Ok a w' -> f a w' = g a w') -> bind m f w = bind m g w.
+Proof. intros H. unfold bind. destruct (m w) as [a w'|x w'] eqn:E; [apply H; reflexivity|reflexivity]. Qed.
+Lemma after_model k p c T w : c = 0 \/ c = -2 \/ c = -3 -> after_op k p (c, T) w = model_after k p (c, T) w.
+Proof.
+  intros [-> | Hc]; [reflexivity|]. rewrite after_op_report by exact Hc.
+  unfold model_after. cbn [fst snd]. destruct Hc as [-> | ->]; reflexivity.
+Qed.
+
+Theorem update_pfx_one_model live p T w : update_pfx_one live p T w = model_update_pfx live p T w.
+Proof.
+  unfold update_pfx_one, model_update_pfx. cbv zeta.
+  destruct (pdu_flags p =? 1).
+  { apply bind_ext_ok. intros [c T'] w' E. apply after_model. exact (pfx_op_never_error _ _ _ _ _ _ _ _ (or_introl eq_refl) E). }
+  destruct (pdu_flags p =? 0).
+  { apply bind_ext_ok. intros [c T'] w' E. apply after_model. exact (pfx_op_never_error _ _ _ _ _ _ _ _ (or_intror eq_refl) E). }
+  apply bad_flags_report.
+Qed.
+Theorem update_key_one_model live p T w : update_key_one live p T w = model_update_key live p T w.
+Proof.
+  unfold update_key_one, model_update_key. cbv zeta.
+  destruct (pdu_flags p =? 1).
+  { apply bind_ext_ok. intros [c T'] w' E. apply after_model. exact (key_op_never_error _ _ _ _ _ _ _ _ (or_introl eq_refl) E). }
+  destruct (pdu_flags p =? 0).
+  { apply bind_ext_ok. intros [c T'] w' E. apply after_model. exact (key_op_never_error _ _ _ _ _ _ _ _ (or_intror eq_refl) E). }
+  apply bad_flags_report.
+Qed.
+
+(* undo of an applied PDU (flags 0 or 1) = the table operation with the inverted flag, as undo_pfx / undo_keys do *)
+Theorem undo_pfx_one_model live p T w : pdu_flags p = 1 \/ pdu_flags p = 0 ->
+  undo_pfx_one live p T w = pfx_op live (1 - pdu_flags p) (prec_of_pdu p) T w.
+Proof. intros [E | E]; unfold undo_pfx_one; rewrite E; reflexivity. Qed.
+Theorem undo_key_one_model live p T w : pdu_flags p = 1 \/ pdu_flags p = 0 ->
+  undo_key_one live p T w = key_op live (1 - pdu_flags p) (krec_of_pdu p) T w.
+Proof. intros [E | E]; unfold undo_key_one; rewrite E; reflexivity. Qed.
+
+(* ====================================================================================================== *)
+(* 7. examples on concrete PDUs (closed terms, evaluated inside Coq)                                         *)
+(* ====================================================================================================== *)
+Definition ex_w : world := mkW (mkSock c_RTR_SYNC 1 7 false 42 0 3600 7200 600 0 true false) [] [] [] [] [] 1000 [].
+(* 10.1.2.0/24-24 AS 65000: announce, withdraw, flags = 2 *)
+Definition p4 (flags : Z) : list byte := [1; 4; 0; 0; 0; 0; 0; 20; flags; 24; 24; 0; 10; 1; 2; 0; 0; 0; 253; 232].
+(* 2001:db8::/32-48 AS 65001 *)
+Definition p6 (flags : Z) : list byte :=
+  [1; 6; 0; 0; 0; 0; 0; 32; flags; 32; 48; 0; 32; 1; 13; 184; 0; 0; 0; 0; 0; 0; 0; 0; 0; 0; 0; 0; 0; 0; 253; 233].
+(* Router Key: SKI 1..20, AS 65002, SPKI 100..190 *)
+Definition pk (flags : Z) : list byte :=
+  ([1; 9; flags; 0; 0; 0; 0; 123] ++ map Z.of_nat (seq 1 20) ++ [0; 0; 253; 234] ++ map Z.of_nat (seq 100 91))%list.
+Definition run_c (e : eff) (T : tabs) (w : world) : option (res (Z * tabs)) :=
+  match interpS true e T w with
+  | Some (Ok (r, _, T') w') => Some (Ok (r, T') w')
+  | Some (Exc x w') => Some (Exc x w')
+  | None => None
+  end.
+
+Example ex_stored_v4 : stored (p4 1) = [1; 4; 0; 0; 20; 0; 0; 0; 1; 24; 24; 0; 0; 2; 1; 10; 232; 253; 0; 0].
+Proof. vm_compute. reflexivity. Qed.
+Example ex_record_v4 :
+  option_map rec_prec (rtr_prefix_pdu_2_pfx_record_gen (stored (p4 1)) (zeros sizeof_pfx_record) this_socket (Some 0) (Some 0) 4) =
+  Some (prec_of_pdu (p4 1)) /\
+  prec_of_pdu (p4 1) = (false, bits32 167838208, 24, 24, 65000, 1).
+Proof. vm_compute. split; reflexivity. Qed.
+Example ex_record_v6 :
+  option_map rec_prec (rtr_prefix_pdu_2_pfx_record_gen (stored (p6 1)) (zeros sizeof_pfx_record) this_socket (Some 0) (Some 0) 6) =
+  Some (prec_of_pdu (p6 1)) /\
+  prec_of_pdu (p6 1) = (true, (bits32 536939960 ++ bits32 0 ++ bits32 0 ++ bits32 0)%list, 32, 48, 65001, 1).
+Proof. vm_compute. split; reflexivity. Qed.
+Example ex_record_key :
+  option_map rec_krec (rtr_key_pdu_2_spki_record_gen (stored (pk 1)) (zeros sizeof_spki_record) this_socket (Some 0) (Some 0) 9) =
+  Some (krec_of_pdu (pk 1)) /\
+  krec_of_pdu (pk 1) = (65002, map Z.of_nat (seq 1 20), map Z.of_nat (seq 100 91), 1).
+Proof. vm_compute. split; reflexivity. Qed.
+
+(* announce into the empty live table: added, callback, RTR_SUCCESS *)
+Example ex_v4_announce :
+  run_c (rtr_update_pfx_table_gen 0 (stored (p4 1)) (Some 0) this_socket (sock_store (sk ex_w))) ([], []) ex_w =
+  Some (update_pfx_one true (p4 1) ([], []) ex_w) /\
+  exists w', update_pfx_one true (p4 1) ([], []) ex_w = Ok (0, ([prec_of_pdu (p4 1)], [])) w' /\
+             pfx w' = [prec_of_pdu (p4 1)] /\ out w' = [TPfx true (prec_of_pdu (p4 1))].
+Proof. split; [vm_compute; reflexivity|]. eexists. split; [vm_compute; reflexivity|]. vm_compute. split; reflexivity. Qed.
+(* the same announcement again: Duplicate Announcement (code 7) with the 20 bytes as received, RTR_ERROR_FATAL, RTR_ERROR *)
+Example ex_v4_duplicate :
+  let T := ([prec_of_pdu (p4 1)], @nil krec) in
+  run_c (rtr_update_pfx_table_gen 0 (stored (p4 1)) (Some 0) this_socket (sock_store (sk ex_w))) T ex_w =
+  Some (update_pfx_one true (p4 1) T ex_w) /\
+  exists w', update_pfx_one true (p4 1) T ex_w = Ok (-1, T) w' /\ st (sk w') = c_RTR_ERROR_FATAL /\
+             out w' = [TState c_RTR_ERROR_FATAL; TSend ([1; 10; 0; 7; 0; 0; 0; 36; 0; 0; 0; 20] ++ p4 1 ++ [0; 0; 0; 0])%list].
+Proof. split; [vm_compute; reflexivity|]. eexists. split; [vm_compute; reflexivity|]. vm_compute. split; reflexivity. Qed.
+(* withdrawal from the empty table: Withdrawal of Unknown Record (code 6) *)
+Example ex_v4_withdraw_unknown :
+  run_c (rtr_update_pfx_table_gen 0 (stored (p4 0)) (Some 0) this_socket (sock_store (sk ex_w))) ([], []) ex_w =
+  Some (update_pfx_one true (p4 0) ([], []) ex_w) /\
+  exists w', update_pfx_one true (p4 0) ([], []) ex_w = Ok (-1, ([], [])) w' /\ st (sk w') = c_RTR_ERROR_FATAL /\
+             out w' = [TState c_RTR_ERROR_FATAL; TSend ([1; 10; 0; 6; 0; 0; 0; 36; 0; 0; 0; 20] ++ p4 0 ++ [0; 0; 0; 0])%list].
+Proof. split; [vm_compute; reflexivity|]. eexists. split; [vm_compute; reflexivity|]. vm_compute. split; reflexivity. Qed.
+(* flags = 2: Corrupt Data (code 0) with the PDU and the text; the state does NOT change *)
+Example ex_v4_bad_flags :
+  run_c (rtr_update_pfx_table_gen 0 (stored (p4 2)) (Some 0) this_socket (sock_store (sk ex_w))) ([], []) ex_w =
+  Some (update_pfx_one true (p4 2) ([], []) ex_w) /\
+  exists w', update_pfx_one true (p4 2) ([], []) ex_w = Ok (-1, ([], [])) w' /\ st (sk w') = c_RTR_SYNC /\
+             out w' = [TSend ([1; 10; 0; 0; 0; 0; 0; 81; 0; 0; 0; 20] ++ p4 2 ++ [0; 0; 0; 45] ++ txt_pfx_flags)%list].
+Proof. split; [vm_compute; reflexivity|]. eexists. split; [vm_compute; reflexivity|]. vm_compute. split; reflexivity. Qed.
+(* IPv6 announce into a shadow table (not live): no callback, the world's tables untouched *)
+Example ex_v6_announce_shadow :
+  interpS false (rtr_update_pfx_table_gen 0 (stored (p6 1)) (Some 0) this_socket (sock_store (sk ex_w))) ([], []) ex_w =
+  Some (as_effS (update_pfx_one false (p6 1) ([], [])) ex_w) /\
+  update_pfx_one false (p6 1) ([], []) ex_w = Ok (0, ([prec_of_pdu (p6 1)], [])) ex_w.
+Proof. split; vm_compute; reflexivity. Qed.
+(* Router Key announce, then its undo: the table is empty again, two callbacks *)
+Example ex_key_announce_undo :
+  run_c (rtr_update_spki_table_gen 0 (stored (pk 1)) (Some 0) this_socket (sock_store (sk ex_w))) ([], []) ex_w =
+  Some (update_key_one true (pk 1) ([], []) ex_w) /\
+  exists w1, update_key_one true (pk 1) ([], []) ex_w = Ok (0, ([], [krec_of_pdu (pk 1)])) w1 /\
+    run_c (rtr_undo_update_spki_table_gen 0 (stored (pk 1)) (Some 0) this_socket (sock_store (sk w1))) ([], [krec_of_pdu (pk 1)]) w1 =
+    Some (undo_key_one true (pk 1) ([], [krec_of_pdu (pk 1)]) w1) /\
+    exists w2, undo_key_one true (pk 1) ([], [krec_of_pdu (pk 1)]) w1 = Ok (0, ([], [])) w2 /\ keys w2 = [] /\
+               out w2 = [TKey false (krec_of_pdu (pk 1)); TKey true (krec_of_pdu (pk 1))].
+Proof.
+  split; [vm_compute; reflexivity|]. eexists. split; [vm_compute; reflexivity|]. split; [vm_compute; reflexivity|].
+  eexists. split; [vm_compute; reflexivity|]. vm_compute. split; reflexivity.
+Qed.
+(* Router Key with flags = 3 *)
+Example ex_key_bad_flags :
+  run_c (rtr_update_spki_table_gen 0 (stored (pk 3)) (Some 0) this_socket (sock_store (sk ex_w))) ([], []) ex_w =
+  Some (update_key_one true (pk 3) ([], []) ex_w) /\
+  exists w', update_key_one true (pk 3) ([], []) ex_w = Ok (-1, ([], [])) w' /\
+             out w' = [TSend ([1; 10; 0; 0; 0; 0; 0; 188; 0; 0; 0; 123] ++ pk 3 ++ [0; 0; 0; 49] ++ txt_key_flags)%list].
+Proof. split; [vm_compute; reflexivity|]. eexists. split; [vm_compute; reflexivity|]. vm_compute. reflexivity. Qed.
+(* undo of a withdrawal = add *)
+Example ex_v4_undo_withdraw :
+  run_c (rtr_undo_update_pfx_table_gen 0 (stored (p4 0)) (Some 0) this_socket (sock_store (sk ex_w))) ([], []) ex_w =
+  Some (undo_pfx_one true (p4 0) ([], []) ex_w) /\
+  exists w', undo_pfx_one true (p4 0) ([], []) ex_w = Ok (0, ([prec_of_pdu (p4 0)], [])) w' /\ pfx w' = [prec_of_pdu (p4 0)].
+Proof. split; [vm_compute; reflexivity|]. eexists. split; [vm_compute; reflexivity|]. vm_compute. reflexivity. Qed.
+
+Example no_store_translator_problems : store_translator_problems = []. Proof. reflexivity. Qed.
+
+Print Assumptions pfx_record_tie.
+Print Assumptions key_record_tie.
+Print Assumptions update_pfx_tie.
+Print Assumptions update_spki_tie.
+Print Assumptions undo_pfx_tie.
+Print Assumptions undo_spki_tie.
+Print Assumptions pfx_op_never_error.
+Print Assumptions key_op_never_error.
+Print Assumptions update_pfx_one_model.
+Print Assumptions update_key_one_model.
+Print Assumptions undo_pfx_one_model.
+Print Assumptions undo_key_one_model.
+Print Assumptions ex_v4_duplicate.
+Print Assumptions ex_key_announce_undo.
